@@ -151,7 +151,7 @@ def make_world(shape):
 
 SHAPES = ["chain", "diamond-literals", "dependent-source", "stored-literal-unpack", "no-registry-needed"]
 
-OPS = ["run", "run-fail-mtime", "run-fail-call", "run-fail-write", "dry", "render", "render-level", "run-none-output",
+OPS = ["run", "run-fail-mtime", "run-fail-call", "run-fail-write", "dry", "render", "render-level", "render-level0", "render-predicate-level2", "render-dry", "run-none-output",
        "transform-physical", "run-no-registry", "copy-mutate", "regcopy-mutate", "run-fresh-time", "run-2-workers-random"]
 
 
@@ -187,6 +187,14 @@ def do_op(w, op):
             u.render(plan, registry=reg, format="dot") if _can_render() else None
         elif op == "render-level":
             u.render(plan, registry=reg, level=1, format="dot") if _can_render() else None
+        elif op == "render-level0":
+            u.render(plan, registry=reg, level=0, format="dot") if _can_render() else None
+        elif op == "render-predicate-level2":
+            u.render(plan, predicate=lambda n, d: bool(getattr(n, "scope", ())), level=2, format="dot") if _can_render() else None
+        elif op == "render-dry":
+            pr = u.run(plan, registry=reg, output=out, progress=None, dry_run=True)
+            u.render(pr, level=0, format="dot") if _can_render() else None
+            u.render(plan.graph, level=-1, format="dot") if _can_render() else None
         elif op == "transform-physical":
             def tp(p, o):
                 # the physical plan is ours to edit: add a node, drop edges
@@ -242,10 +250,10 @@ def _can_render():
 
 
 def _seq_task(payload):
-    shape, first = payload
+    shape, first, maxlen = payload
     n = 0
     fails = []
-    rest = list(itertools.product(OPS, repeat=2)) + [(o,) for o in OPS] + [()]
+    rest = [()] + [(o,) for o in OPS] + (list(itertools.product(OPS, repeat=2)) if maxlen >= 3 else [])
     ref_w = make_world(shape)
     try:
         ref = ref_w["uberjob"].run(ref_w["plan"], registry=ref_w["reg"], output=ref_w["out"], progress=None, max_workers=1)
@@ -415,11 +423,12 @@ def conc_explorations(tier):
 
 
 def run(tier):
-    payloads = [(s, f) for s in SHAPES for f in OPS]
+    maxlen = 2 if tier == "quick" else 3
+    payloads = [(s, f, maxlen) for s in SHAPES for f in OPS]
     res = common.pmap(_seq_task, payloads)
     viols = []
     n = 0
-    for (shape, first), r in zip(payloads, res):
+    for (shape, first, _), r in zip(payloads, res):
         n += r["n"]
         for key, msg, seq in r["fails"]:
             viols.append(common.Violation(PROP, key, msg, {"engine": "E3", "shape": shape, "seq": list(seq)}))
@@ -441,7 +450,7 @@ def run(tier):
         "operation_sequences": n, "operations": OPS, "plans": SHAPES, "render_available": bool(_can_render()),
         "e1_configs": agg["configs"], "e1_executions": agg["executions"], "e1_schedule_tree_nodes": agg["tree_nodes"],
         "e1_max_points_per_execution": agg["max_points"], "e1_capped": agg["capped"], "e1_budgets": [b for _, b in conc_explorations(tier)],
-        "rule": ("(a) all operation sequences of length <= 3 over the 14-operation alphabet on 5 plans (scopes, literals with dependencies, dependent source on a shared store, stored literal + unpack, unneeded nodes); "
+        "rule": ("(a) all operation sequences of length <= 2 (thorough: 3) over the 17-operation alphabet on 5 plans (scopes, literals with dependencies, dependent source on a shared store, stored literal + unpack, unneeded nodes); "
                  "deep identity snapshot (node objects, scope/fn/value/stack_frame identities, edge multiset with keys and data, plan scope, registry entries and their RegistryValue objects) compared after every step, "
                  "final run compared with a pristine twin; (b) two threads run/dry-run/render the same plan+registry: every schedule with <= 1 preemption and <= 1 (thorough 2) non-default choices at blocking points, scheduling points at attribute/subscript accesses of the transformation code"),
         "samples": [{"plan": "chain", "sequence": ["run-fail-write", "dry", "run"]}, {"concurrent": ["run", "run"], "plan": "chain"}],
@@ -456,7 +465,7 @@ def replay(rep):
     if rep.get("engine") == "E1":
         install_points()
         return [m for t, m in e1run.replay(rep) if t == PROP]
-    r = _seq_task((rep["shape"], rep["seq"][0] if rep["seq"] else OPS[0]))
+    r = _seq_task((rep["shape"], rep["seq"][0] if rep["seq"] else OPS[0], 3))
     out = [m for k, m, s in r["fails"] if list(s) == list(rep["seq"])]
     for m in out:
         print("ORACLE:", m)
